@@ -6,7 +6,9 @@ import (
 	"context"
 	"fmt"
 	"os"
+	"path/filepath"
 	"reflect"
+	"strconv"
 	"sync"
 	"testing"
 
@@ -24,6 +26,7 @@ type c04Case struct {
 	CacheSize int // 0 = ZOEKT_DOCMATCHTREE_CACHE unset
 	Workers   int // 1 = sequential; > 1 = that many goroutines share the history
 	Chunk     bool
+	Split     bool // two compound shards instead of one
 }
 
 func genMetaAtom(g kit.G) kit.QSpec {
@@ -70,13 +73,39 @@ func runC04(rec *kit.Recorder, c c04Case) error {
 		return err
 	}
 	defer os.RemoveAll(tmp)
-	// write the shards once (cache setting is read when a shard is loaded)
-	os.Unsetenv("ZOEKT_DOCMATCHTREE_CACHE")
-	built, err := kit.Build(&c.Corpus, tmp)
-	if err != nil {
-		return kit.Fail("build", "%v", err)
+	// In "preset" processes the cache variable is set for the whole life of the
+	// process (as in a real server) and never touched by the harness.
+	preset := os.Getenv("VERIF_C04_PRESET") != ""
+	if preset {
+		c.CacheSize, _ = strconv.Atoi(os.Getenv("ZOEKT_DOCMATCHTREE_CACHE"))
 	}
-	built.Close()
+	// write the shards once (cache setting is read when a shard is loaded)
+	if !preset {
+		os.Unsetenv("ZOEKT_DOCMATCHTREE_CACHE")
+	}
+	built := &kit.Built{}
+	if c.Split && len(c.Corpus.Repos) >= 2 {
+		// two compound shards with different repository layouts
+		h := len(c.Corpus.Repos) / 2
+		for i, part := range [][]kit.Repo{c.Corpus.Repos[:h], c.Corpus.Repos[h:]} {
+			dir := filepath.Join(tmp, fmt.Sprint(i))
+			os.MkdirAll(dir, 0o755)
+			pc := kit.Corpus{Repos: part, Compound: true}
+			b, err := kit.Build(&pc, dir)
+			if err != nil {
+				return kit.Fail("build", "%v", err)
+			}
+			b.Close()
+			built.Paths = append(built.Paths, b.Paths...)
+		}
+	} else {
+		b, err := kit.Build(&c.Corpus, tmp)
+		if err != nil {
+			return kit.Fail("build", "%v", err)
+		}
+		b.Close()
+		built.Paths = b.Paths
+	}
 
 	var qs []query.Q
 	var specs []kit.QSpec
@@ -112,14 +141,31 @@ func runC04(rec *kit.Recorder, c c04Case) error {
 			continue
 		}
 		want[i] = w
+		if preset {
+			// with a process-wide setting even a freshly loaded index may be
+			// affected by earlier searches: anchor the expectation in the
+			// reference evaluator as well
+			exp, err := kit.Expected(&c.Corpus, q)
+			if err == nil {
+				got := map[string]bool{}
+				for k := range w {
+					got[k] = true
+				}
+				if m, x := diffSets(exp, got); len(m)+len(x) > 0 {
+					return kit.Fail("history-dependent", "query %s on a freshly loaded index (process-wide cache=%d, %d shards): missing %q extra %q with respect to the reference evaluation", q, c.CacheSize, len(built.Paths), m, x)
+				}
+			}
+		}
 	}
 
 	// the history on one loaded index with the configured cache
-	if c.CacheSize > 0 {
+	if c.CacheSize > 0 && !preset {
 		os.Setenv("ZOEKT_DOCMATCHTREE_CACHE", fmt.Sprint(c.CacheSize))
 	}
 	loaded, err := openShards(built.Paths)
-	os.Unsetenv("ZOEKT_DOCMATCHTREE_CACHE")
+	if !preset {
+		os.Unsetenv("ZOEKT_DOCMATCHTREE_CACHE")
+	}
 	if err != nil {
 		return kit.Fail("load", "%v", err)
 	}
@@ -198,14 +244,14 @@ func runC04(rec *kit.Recorder, c c04Case) error {
 	if c.Workers > 1 {
 		mode = "concurrent"
 	}
-	rec.Eval(fmt.Sprintf("%+v", c), nt, fmt.Sprintf("cache:%d", c.CacheSize), mode)
+	rec.Eval(fmt.Sprintf("%+v", c), nt, fmt.Sprintf("cache:%d", c.CacheSize), mode, fmt.Sprintf("shards:%d", len(built.Paths)), fmt.Sprintf("preset:%v", preset))
 	rec.Sample(c, nt)
 	return nil
 }
 
 func TestVerif_C04(t *testing.T) {
 	rec := kit.Open(t, "C04",
-		"a generated compound shard (2-4 repositories with differing metadata, so that Meta atoms select some but not all of them) loaded with ZOEKT_DOCMATCHTREE_CACHE in {unset,1,2,64} x a history of 2-12 queries biased towards repeated Meta atoms, run sequentially or by 2-6 goroutines (twice each, rotated); each result must equal the same query alone on a freshly loaded index with the cache off; non-trivial = cache on and >= 2 queries of the history share a Meta atom and have a non-empty expected result; distinct by hash",
+		"one or two generated compound shards (2-4 repositories with differing metadata, so that Meta atoms select some but not all of them) loaded with ZOEKT_DOCMATCHTREE_CACHE in {unset,1,2,64} (set per load, or - in every second process - set for the whole life of the process) x a history of 2-12 queries biased towards repeated Meta atoms, run sequentially or by 2-6 goroutines (twice each, rotated); each result must equal the same query alone on a freshly loaded index with the cache off; non-trivial = cache on and >= 2 queries of the history share a Meta atom and have a non-empty expected result; distinct by hash",
 		"results are compared per file (line / chunk matches, branches) without scores' debug strings",
 		"concurrent runs explore the interleavings the Go scheduler produces",
 	)
@@ -250,6 +296,7 @@ func TestVerif_C04(t *testing.T) {
 			}
 		}
 		c.Workers = kit.Pick(g, []int{1, 1, 1, 2, 4, 6}, "workers")
+		c.Split = g.Bool(40, "split")
 		return c
 	}, func(c c04Case) error { return runC04(rec, c) })
 }
